@@ -26,7 +26,8 @@ TARGETS = {
     'vakt/policy.py': {'Policy': ['_calculate_type', '_check_field_type', '__setattr__', 'from_json', '__init__']},
     'vakt/audit.py': {'PoliciesNopMsg': ['__str__'], 'PoliciesUidMsg': ['__str__'], 'PoliciesDescriptionMsg': ['__str__'],
                       'PoliciesCountMsg': ['__str__']},
-    'vakt/cache.py': {'EnfoldCache': ['add', 'update', 'delete', 'get', 'get_all', 'populate', 'retrieve_all']},
+    'vakt/cache.py': {'EnfoldCache': ['add', 'update', 'delete', 'get', 'get_all', 'populate', 'retrieve_all'],
+                      'AllowanceCache': ['__init__', 'update']},
     'vakt/storage/observable.py': {'ObservableMutationStorage': ['add', 'update', 'delete', 'get', 'get_all', 'retrieve_all']},
     'vakt/storage/memory.py': {'MemoryStorage': ['add', 'get', 'get_all', 'find_for_inquiry', 'update', 'delete']},
     'vakt/storage/abc.py': {'Storage': ['retrieve_all', '_check_limit_and_offset']},
@@ -40,6 +41,7 @@ TARGETS = {
     'vakt/rules/string.py': {'Equal': ['satisfied'], 'PairsEqual': ['satisfied'], 'StartsWith': ['satisfied'],
                              'EndsWith': ['satisfied'], 'Contains': ['satisfied'], 'RegexMatch': ['satisfied']},
     'vakt/rules/net.py': {'CIDR': ['satisfied']},
+    'vakt/util.py': {'Subject': ['__init__', 'add_listener', 'remove_listener', 'notify']},
 }
 
 
